@@ -57,6 +57,8 @@ def frac_of_float(x):
 
 
 def rat_str(q):
+    if isinstance(q, str):
+        return q
     q = Fraction(q)
     return str(q.numerator) if q.denominator == 1 else f"{q.numerator}/{q.denominator}"
 
@@ -103,9 +105,13 @@ def dec_flt(obj):
 def tensor_to_fracs(t):
     """torch tensor (any float dtype) -> nested lists of exact Fractions"""
     import torch
+    import math
+
     def conv(o):
         if isinstance(o, list):
             return [conv(x) for x in o]
+        if isinstance(o, float) and not math.isfinite(o):
+            return "nan" if math.isnan(o) else ("inf" if o > 0 else "-inf")   # never equal to any exact value
         return Fraction(o)
     return conv(t.detach().to(torch.float64).tolist())
 
